@@ -2,6 +2,7 @@ package node
 
 import (
 	"fmt"
+	"unicode/utf8"
 
 	"github.com/freeconf/yang/meta"
 	"github.com/freeconf/yang/val"
@@ -78,7 +79,8 @@ func (fieldConstraints) lenCheck(s string, lengths []*meta.Range) error {
 		return nil
 	}
 	for _, length := range lengths {
-		if err := length.CheckValue(val.Int32(len(s))); err != nil {
+		// RFC 7950 Sec 9.4.4: the length of a string is counted in characters
+		if err := length.CheckValue(val.Int32(utf8.RuneCountInString(s))); err != nil {
 			return fmt.Errorf("string length outside allowed ranges. %s", s)
 		}
 	}
